@@ -48,12 +48,72 @@ let build_ip6 fields : M.ip6 =
 
 let junk_need = 4096
 
+(* ---- kinds frag / rtg (Lip6xModel) *)
+module X = Lip6xModel
+
+let frag_zero : X.frag = { X.f_next = z_of_int 0; f_res1 = z_of_int 0; f_offset = z_of_int 0; f_res2 = z_of_int 0; f_more = false;
+                           f_ident = z_of_int 0; f_contents = []; f_payload = [] }
+let rtg_zero : X.rtg = { X.r_next = z_of_int 0; r_hlen = z_of_int 0; r_alen = z_of_int 0; r_type = z_of_int 0; r_segleft = z_of_int 0;
+                         r_reserved = []; r_ips = []; r_contents = []; r_payload = [] }
+
+let frag_state (f : X.frag) =
+  Printf.sprintf "next=%s;res1=%s;off=%s;res2=%s;more=%s;id=%s;c=%s;p=%s" (zi f.X.f_next) (zi f.X.f_res1) (zi f.X.f_offset) (zi f.X.f_res2)
+    (b2i f.X.f_more) (zi f.X.f_ident) (hex_of_bytes f.X.f_contents) (big f.X.f_payload)
+let rtg_state (r : X.rtg) =
+  Printf.sprintf "next=%s;hlen=%s;alen=%s;type=%s;segleft=%s;res=%s;ips=%s;c=%s;p=%s" (zi r.X.r_next) (zi r.X.r_hlen) (zi r.X.r_alen)
+    (zi r.X.r_type) (zi r.X.r_segleft) (hex_of_bytes r.X.r_reserved) (String.concat "|" (Stdlib.List.map hex_of_bytes r.X.r_ips))
+    (hex_of_bytes r.X.r_contents) (big r.X.r_payload)
+
+let x_decode k data =
+  if k = "frag" then (match X.frag_decode data with (Base.Ok f, tr) -> ("ok", tr, `F f) | (r, tr) -> (cls_name r, tr, `F frag_zero))
+  else (match X.rtg_decode data with (Base.Ok r, tr) -> ("ok", tr, `R r) | (r, tr) -> (cls_name r, tr, `R rtg_zero))
+let x_state = function `F f -> frag_state f | `R r -> rtg_state r
+let x_ser v payload fix csum junk =
+  match v with
+  | `F f -> fst (X.frag_serialize f payload fix csum junk)
+  | `R r -> fst (X.rtg_serialize r payload fix csum junk)
+let x_build k fields =
+  let f = Array.of_list (split_on '.' fields) in
+  if k = "frag" then
+    `F { X.f_next = zs f.(0); f_res1 = zs f.(1); f_offset = zs f.(2); f_res2 = zs f.(3); f_more = (f.(4) = "1"); f_ident = zs f.(5);
+         f_contents = []; f_payload = [] }
+  else
+    let ips = if f.(6) = "" then [] else Stdlib.List.map (fun h -> if h = "-" then [] else bytes_of_hex h) (split_on '|' f.(6)) in
+    `R { X.r_next = zs f.(0); r_hlen = zs f.(1); r_alen = zs f.(2); r_type = zs f.(3); r_segleft = zs f.(4);
+         r_reserved = bytes_of_hex f.(5); r_ips = ips; r_contents = []; r_payload = [] }
+
+let x_run name (a : string array) emit =
+  let arg i = if i < Array.length a then a.(i) else "" in
+  let k = arg 0 in
+  match name with
+  | "dec" ->
+    let (c, tr, v) = x_decode k (bytes_of_hex (arg 1)) in
+    emit (Printf.sprintf "cls=%s;trunc=%s;%s;render=ok,ok,ok" c (b2i tr) (x_state v))
+  | "ser" | "nser" ->
+    let (v, fcd, payload) =
+      if name = "ser" then (let (_, _, v) = x_decode k (bytes_of_hex (arg 1)) in (v, arg 2, arg 3))
+      else (x_build k (arg 3), arg 1, arg 2) in
+    let (fix, csum, mode) = flags fcd in
+    let r = x_ser v (payload_of payload) fix csum (junk_of mode 4096) in
+    emit (Printf.sprintf "cls=%s;out=%s" (cls_name r) (match r with Base.Ok b -> big b | _ -> ""))
+  | "rt" | "nrt" ->
+    let (v, payload) =
+      if name = "rt" then (let (_, _, v) = x_decode k (bytes_of_hex (arg 1)) in (v, arg 2)) else (x_build k (arg 2), arg 1) in
+    (match x_ser v (payload_of payload) true true [] with
+     | Base.Ok b ->
+       let (c, tr, v2) = x_decode k b in
+       emit (Printf.sprintf "scls=ok;cls=%s;trunc=%s;%s;render=ok,ok,ok" c (b2i tr) (x_state v2))
+     | r -> emit (Printf.sprintf "scls=%s;cls=err;trunc=0;%s;render=ok,ok,ok" (cls_name r)
+                    (x_state (if k = "frag" then `F frag_zero else `R rtg_zero))))
+  | _ -> failwith ("Lip6 x op: " ^ name)
+
 let run (id : string) (ops : string list) (out : out_channel) =
   let step = ref 0 in
   let emit s = Printf.fprintf out "%s\t%d\t%s\n" id !step s; incr step in
   Stdlib.List.iter (fun op ->
     let (name, a) = args_of op in
     let arg i = if i < Array.length a then a.(i) else "" in
+    if Array.length a > 0 && (a.(0) = "frag" || a.(0) = "rtg") then x_run name a emit else
     let dec k old_ext old_ip data =
       if k = "ip6" then
         let ((l, r), tr) = M.ip6_decode_into old_ip data in
